@@ -609,9 +609,15 @@ package security
 //@   assert before call security.getInt #4 nonce_echoed: [C11] sameBytes(rbEcho, authData.RB)
 //@   assert before call Message).GetChar #1 client_proved_possession: [C11] sameBytes(clientMAC, expectedMAC)
 //@   assert before call Authenticator).deriveSessionKey #1 key_only_without_error: [C11] authData.AuthError == nil
+//@   ensures completes_the_exchange: [C11] err == nil ==> authData.State == TokenStateAuthComplete
 
+// key derivation from the token signature (HKDF/HMAC, outside the model) does not touch the authenticator or negotiation
+//@ func (*Authenticator).deriveTokenKeys (a, authData) (err)
+//@   trusted
+//@   preserves security.Authenticator security.SecurityNegotiation
 //@ func (*Authenticator).validateTokenAndDeriveKeys (a, authData, negotiation) (err)
 //@   props C11
+//@   preserves security.Authenticator security.SecurityNegotiation
 //@   requires given: authData != nil && negotiation != nil && negotiation.ServerConfig != nil
 //@   assert before call Authenticator).computeTokenSignature #1 identity_from_token: [C11] authData.ClientID == subject && subject != ""
 //@   assert after call Authenticator).validateTokenTiming #1 timing_enforced: [C11] true
@@ -679,6 +685,7 @@ package security
 // token time claims (C11): boundaries exactly as HTCondor's - expired at now >= exp; too old at now - iat > max age
 //@ func (*Authenticator).validateTokenTiming (a, claims, config) (err)
 //@   props C11
+//@   preserves security.Authenticator security.SecurityNegotiation
 //@   ensures expiry_enforced_int: [C11] err == nil && claims != nil && has(claims, "exp") && typeis(claims["exp"], "int64") ==> now < unbox(claims["exp"], "int64")
 //@   ensures expiry_enforced_json_number: [C11] err == nil && claims != nil && has(claims, "exp") && typeis(claims["exp"], "float64") ==> now < trunc(unbox(claims["exp"], "float64"))
 //@   ensures expiry_must_be_a_number: [C11] err == nil && claims != nil && has(claims, "exp") ==> typeis(claims["exp"], "float64") || typeis(claims["exp"], "int64") || typeis(claims["exp"], "int")
@@ -792,3 +799,21 @@ package security
 //@   hyp len(id1) == len(id2) && len(info1) == len(info2) && len(key1) == len(key2)
 //@   concl forall i :: 0 <= i && i < len(key1) ==> key1[i] == key2[i]
 //@ end
+
+// ---- token exchange, top level (C11): success is reported only at the end of the three-step exchange ---------------
+// Assumed about the error values of this file: everything that errors.Is(.., ErrNetwork) was built by
+// errors.Wrap(ErrNetwork, ..) (the transport helpers at the top of token_auth.go), so it unwraps to a non-nil error.
+//@ immutable security.ErrNetwork
+//@ axiom [C11] forall e :: Is(e, ErrNetwork) ==> Unwrap(e) != nil
+//@ func (*Authenticator).receiveServerTokenStep1 (a, ctx, authData, negotiation) (err)
+//@   props C11
+//@   requires given: a.stream != nil && authData != nil
+//@   preserves security.Authenticator security.SecurityNegotiation
+//@ func (*Authenticator).sendServerTokenStep2 (a, ctx, authData, negotiation) (err)
+//@   props C11
+//@   requires given: a.stream != nil && authData != nil
+//@   preserves security.Authenticator security.SecurityNegotiation
+//@ func (*Authenticator).performTokenAuthenticationServer (a, ctx, method, negotiation) (err)
+//@   props C11
+//@   requires given: a.stream != nil && negotiation != nil && negotiation.ServerConfig != nil
+//@   assert before call errors.Unwrap early_exit_only_for_transport_errors: [C11] Is(arg0, ErrNetwork) && Unwrap(arg0) != nil
